@@ -197,6 +197,12 @@ func runC16SFTP(c *fw.Case) {
 		case 5:
 			o.rel, o.kind = rel(unc)+fmt.Sprint(r.IntN(1<<30)), "abandoned-temp-object" // what StoreObject leaves behind when killed
 		}
+		// a file that only looks like an upload's temporary name (a chunk name followed by something that is not the
+		// decimal number StoreObject appends) is somebody else's file: it stays
+		if c.ChanceAdded(1, 6, "sftpobj.nearmiss") {
+			suffix := []string{"-1", "+20260101", ".bak", "x12", "-", "12a", "_7"}[c.Draw(7, "sftpobj.nearmiss.suffix")]
+			*o = obj{rel: rel(unc) + suffix, kind: "junk"}
+		}
 		if o.ownFmt && (refMode == 1 || (refMode == 2 && r.IntN(2) == 0)) {
 			o.referenced = true
 			keep[id] = struct{}{}
